@@ -22,7 +22,7 @@ SPEC = {
 
 
 def bounds(tier):
-    return {"shapes": "W-DAG(n<=3) + W-DIG(n<=3, arcs<=4) + zero-vertex block", "blocks_per_file": "1-2 (quick) / 1-3 (thorough)", "layout_variants": len(LAYOUTS)}
+    return {"shapes": "W-DAG(n<=3) + W-DIG(n<=3, arcs<=4) + zero-vertex block; cyclic W-DIG(n=4, arcs<=5/6) in the plain layout (stored width)", "blocks_per_file": "1-2 (quick) / 1-3 (thorough)", "layout_variants": len(LAYOUTS)}
 
 
 LAYOUTS = []
@@ -115,11 +115,21 @@ def cases(tier, seed):
                 else:
                     sl = d["seqs"][:1] + [[d["names"][0]]] + d["seqs"][-1:]  # a one-node line defines no constraint
                 blocks.append({"descr": d, "layout": lay, "slines": sl, "id": f"graph {idx}.{li}.{cm} name = g{idx}", "zero": False})
+    # larger cyclic shapes (n = 4, <= 5 arcs; thorough <= 6): plain layout, no corruptions - they exercise the stored width
+    # (parallel arcs between strongly connected components, several SCCs in a row)
+    big = []
+    for idx, shp in enumerate(world.dig_shapes(4, 5 if tier == "quick" else 6)):
+        if shp[0] != 4 or world.is_acyclic(*shp):
+            continue
+        d = _block_descr(shp, seed, 300 + idx, idx % 4)
+        big.append({"descr": d, "layout": LAYOUTS[0], "slines": d["seqs"][:1], "id": f"graph big {idx}", "zero": False})
     zero = {"descr": {"names": [], "arcs": [], "ws": [], "seqs": [], "wseqs": []}, "layout": LAYOUTS[0], "slines": [], "id": "empty graph", "zero": True}
     # single-block files (with all corruptions), then multi-block files
     for i, b in enumerate(blocks):
         yield {"blocks": [b], "corrupt": True, "trailing_blank": i % 2 == 0}
     yield {"blocks": [zero], "corrupt": False, "trailing_blank": False}
+    for i in range(0, len(big), 2):
+        yield {"blocks": big[i:i + 2], "corrupt": False, "trailing_blank": i % 4 == 0}
     step = 7 if tier == "quick" else 3
     for i in range(0, len(blocks) - 1, step):
         yield {"blocks": [blocks[i], blocks[(i * 5 + 3) % len(blocks)]], "corrupt": False, "trailing_blank": True}
